@@ -67,9 +67,20 @@ type concurrent interface {
 	DecryptBlocks(dst, src []byte)
 }
 
+// newCipherOwned gives NewCipher a private copy of the key and overwrites the copy once the constructor has returned:
+// the block must own its key schedule.
+func newCipherOwned(key []byte) (cipher.Block, error) {
+	k := append([]byte{}, key...)
+	b, err := sm4.NewCipher(k)
+	for i := range k {
+		k[i] = 0xA5
+	}
+	return b, err
+}
+
 // one block alone through Block.Encrypt / Block.Decrypt, disjoint guarded and in place
 func single(c *mon.Case, g1, g2 *mon.Guard, key, pt []byte, hi bool) {
-	blk, err := sm4.NewCipher(key)
+	blk, err := newCipherOwned(key)
 	if err != nil {
 		c.Fail("reject", "NewCipher(16-byte key): %v", err)
 		return
@@ -179,7 +190,7 @@ func batchWL(x *mon.Ctx) {
 						pt[16*i] = byte(i)
 					}
 				}
-				blk, err := sm4.NewCipher(key)
+				blk, err := newCipherOwned(key)
 				if err != nil {
 					c.Fail("reject", "NewCipher: %v", err)
 					c.End()
